@@ -129,7 +129,35 @@ class Harness:
                 if ro is not None:
                     dec3 = self.primed(state)
                     self.monitored(lambda: dec3.decode_message(ro), data, dict(case, api="decode_message(DataReadout)"), "decode_message(DataReadout)")
+            if len(data) <= 1900 and (len(data) + (0 if state is None else len(state))) % 4 == 0:
+                # the same octets as information field of HDLC frame objects: ordinary, with the segmentation bit, after a header-only
+                # frame (with and without that bit) was given to the same AutoDecoder
+                frames = self.frames_for(data)
+                if frames:
+                    dec4 = self.primed(state)
+                    for label, fr in frames:
+                        self.monitored(lambda: dec4.decode_message(fr), data, dict(case, api=f"decode_message(HdlcFrame:{label})"), "decode_message(HdlcFrame)")
             self.ctx.case(repr(state).encode() + data, kind != "genuine", 0)
+
+    def frames_for(self, data: bytes):
+        from vf.mon import hdlc_mon
+        from vf.ref import hdlc_ref
+
+        k = self.calls
+        try:
+            octs = [("header_only_segmented", hdlc_ref.build(0xA, True, b"\x03", b"\x21", 0x13, b"")), ("segmented", hdlc_ref.build(0xA, True, b"\x03", b"\x21", 0x13, data) if data else None),
+                    ("header_only", hdlc_ref.build(0xA, False, b"\x03", b"\x21", 0x13, b"")), ("ordinary", hdlc_ref.build(0xA, False, b"\x03", bytes((0x02, (k % 127) * 2 + 1)), 0x13, data) if data else None),
+                    ("header_only_segmented", hdlc_ref.build(0xA, True, b"\x03", b"\x21", 0x13, b"")), ("ordinary_again", hdlc_ref.build(0xA, False, b"\x03", b"\x21", 0x10, data) if data else None)]
+        except ValueError:
+            return []
+        order = [(l, o) for l, o in octs if o is not None]
+        if k % 2:
+            order = order[2:] + order[:2]
+        stream = b"\x7e" + b"\x7e".join(o for _l, o in order) + b"\x7e"
+        got = hdlc_mon.new_reader((False, False)).read(stream) if not any(0x7E in o for _l, o in order) else hdlc_mon.new_reader((True, False)).read(b"\x7e" + b"\x7e".join(hdlc_ref.stuff(o) for _l, o in order) + b"\x7e")
+        if len(got) != len(order):
+            return []
+        return [(l, f) for (l, _o), f in zip(order, got)]
 
 
 STATES = (None,) + pool.DECODER_NAMES
